@@ -277,6 +277,42 @@ theorem TimInv.start {tm : Timer} {ths : List (Nat × Th)} (h : TimInv tm ths) (
     · rename_i hut; exact Or.inr hut
     · exact Or.inl (h.t3 u th' hu hts')
 
+/-- `AddTiming` together with any record update that sets the state to `timing` -/
+theorem TimInv.start' {tm : Timer} {ths : List (Nat × Th)} (h : TimInv tm ths) (t due : Nat) (th : Th)
+    (hth : thFind ths t = some th) (hts : th.ts ≠ .timing) (f : Th → Th) (hf : ∀ x, (f x).ts = .timing) :
+    TimInv (tm.add t due) (ths.map (thUpd t f)) := by
+  have hnot : t ∉ tm.elems.map (·.1) := by
+    intro hm
+    obtain ⟨e, he, het⟩ := List.mem_map.1 hm
+    obtain ⟨th0, h1, h2⟩ := h.t1 e he
+    rw [het, hth] at h1; cases h1
+    exact hts h2
+  refine ⟨?_, ?_, ?_⟩
+  · intro e he
+    simp only [Timer.add, List.mem_append, List.mem_singleton] at he
+    rw [thFind_map_upd]
+    rcases he with he | he
+    · obtain ⟨th0, h1, h2⟩ := h.t1 e he
+      split
+      · rename_i hut
+        exfalso; apply hnot; rw [← hut]; exact List.mem_map.2 ⟨e, he, rfl⟩
+      · exact ⟨th0, h1, h2⟩
+    · subst he
+      simp only [if_true]
+      exact ⟨f th, by simp [hth], hf th⟩
+  · simp only [Timer.add, List.map_append, List.map_cons, List.map_nil]
+    rw [List.nodup_append]
+    refine ⟨h.t2, by simp, ?_⟩
+    intro a ha b hb
+    simp at hb; subst hb
+    intro e; subst e; exact hnot ha
+  · intro u th' hu hts'
+    simp only [Timer.add, List.map_append, List.map_cons, List.map_nil, List.mem_append, List.mem_singleton]
+    rw [thFind_map_upd] at hu
+    split at hu
+    · rename_i hut; exact Or.inr hut
+    · exact Or.inl (h.t3 u th' hu hts')
+
 theorem TimInv.filter {tm : Timer} {ths : List (Nat × Th)} (h : TimInv tm ths) (t : Nat)
     (hold : ∀ th, thFind ths t = some th → th.ts ≠ .timing) :
     TimInv tm (ths.filter (fun e => !(e.1 == t))) := by
